@@ -813,6 +813,14 @@ func streamCont(o *Out, r *rand.Rand, n int, thorough bool) {
 		{"a = make([][]int64, 1)\na[0] = [1, 2]\nfunc f(v) { a[0] = [5]; return len(v) }\nf(a[0])", "int64:2"},
 		{"a = make([][]int64, 2)\na[0] = [1]\na[1] = [2, 2]\nr = []\nfor v in a {\na[1] = [3, 3, 3]\nr += len(v)\n}\nr", "[]iface[int64:1 int64:3]"},
 		{"a = make([][]int64, 1)\na[0] = [1, 2]\nx = a[0]\nx[0] = 9\na[0][0]", "int64:9"},
+		// a pointer to an element addresses the element's slot: stores through it show in the container and the other way round
+		{"a = [1, 2, 3]\np = &a[1]\n*p = 9\na", "[]iface[int64:1 int64:9 int64:3]"},
+		{"a = [1, 2, 3]\np = &a[1]\na[1] = 7\n*p", "int64:7"},
+		{"a = [1, 2, 3]\nb = a[1:]\np = &b[0]\n*p = 5\n[a, b]", "[]iface[[]iface[int64:1 int64:5 int64:3] []iface[int64:5 int64:3]]"},
+		{"m = {\"k\": [1, 2]}\nx = m[\"k\"]\np = &x[0]\n*p = 42\nm[\"k\"]", "[]iface[int64:42 int64:2]"},
+		{"t = make([]int64, 2)\np = &t[0]\n*p = 4\nt[1] = 6\n[t, *p]", "[]iface[[]int64[int64:4 int64:6] int64:4]"},
+		{"a = [\"x\", [1, 2]]\np = &a[1]\nq = *p\nq[0] = 8\na[1]", "[]iface[int64:8 int64:2]"},
+		{"a = [1, 2]\nfunc set(p, v) { *p = v }\nset(&a[0], 10)\nset(&a[1], 20)\na", "[]iface[int64:10 int64:20]"},
 		{"x = make(S)\ny = x\ny.A = 4\n[x.A, y.A]", "SKIP"},
 		{"x = make(S)\nx.Nope = 1", "ERROR"}, {"x = make(S)\nx.Nope", "ERROR"}, {"x = make(S)\nx.A = 3\nx.A", "int64:3"},
 		{"x = make(S)\nx.C = [1, 2]\nx.C[1]", "int64:2"}, {"x = make(S)\nx.D = {\"a\": 1}\nx.D.a", "int64:1"}, {"x = make(S)\nx.G = [1]\nx.G", "[]iface[int64:1]"},
